@@ -79,6 +79,11 @@ def run_c19(res, rng):
     if ndiff and not nbad:
         c = next(c for c in cases if ref.get(c.cid) != model.get(c.cid))
         res.violation('correspondence model/implementation broken on %d workload case(s) (single-threaded), first %s; concurrent runs agree with the sequential ones' % (ndiff, c.cid), c.text(), False, 'correspondence')
+    # copies of a decoder are separate instances too: copy while reassemblies are pending, then drive both
+    from runner import correspondence
+    cc = gen_dec.copy_cases(rng.fork('copy'), 'copy', 120 if res.tier == 'quick' else 4000)
+    correspondence(res, cc, lambda c, lines: [l for l in lines if l.startswith(('K ', 'N '))], gen_dec.judge_copy, 'copied decoder is a separate instance')
+    cases = cases + cc
     res.cov['evaluations'] = len(cases) * (1 + len(runs))
     res.cov['distinct_nontrivial'] = len(set(tuple(c.lines) for c in cases))
     res.cov['schedules'] = [name for name, _ in runs]
@@ -86,7 +91,7 @@ def run_c19(res, rng):
     res.cov['judge_failures'] = nbad
     res.cov['traces_validated_against_impl'] = len(cases) - ndiff
     res.cov['rule'] = ('mixed workload (encoder batches and histories, decoder histories incl. TECMP through the static TECMP decoder, payload builders, status sequences), each case with its own Encoder/Decoder/Status objects; '
-                       'run once sequentially and once with the cases distributed over 8 (quick) / 16 (thorough) threads without synchronisation (ASan build; TSan build in the thorough tier); per-case transcripts must be identical and equal to the model\'s. non-trivial = distinct cases')
+                       'run once sequentially and once with the cases distributed over 8 (quick) / 16 (thorough) threads without synchronisation (ASan build; TSan build in the thorough tier); per-case transcripts must be identical and equal to the model\'s; plus decoders copied while reassemblies are pending, original and copy then driven with the same remaining frames in any merge order (judge: each behaves as a reference decoder with a deep copy of the state). non-trivial = distinct cases')
     res.cov['samples'] = [dict(case=c.cid, script=[l[:120] for l in c.lines[:3]]) for c in cases[:3]]
 
 def stray_cases(rng, n):
@@ -130,6 +135,13 @@ def run_c20(res, rng):
                     res.violation('output depends on prior heap contents: case %s observation %d is "%s" with fill pattern %s and "%s" with fill pattern %s' % (
                         c.cid, k, (a[k] if k < len(a) else '<end>')[:200], fills[0], (b[k] if k < len(b) else '<end>')[:200], fills[fi + 1]), c.text(), True, 'judge')
                 break
+    # a read outside every object the library owns returns indeterminate bytes whatever the fill pattern: ASan reports it
+    for c in cases:
+        an = [l for l in outs[0].get(c.cid, []) if l.startswith(ANOMALY) and ('overflow' in l or 'use-after' in l or 'uninit' in l)]
+        if an:
+            nbad += 1
+            if nbad <= 3:
+                res.violation('reads memory outside its own objects (contents indeterminate): case %s: %s' % (c.cid, an[0][:300]), c.text(), True, 'judge')
     if res.tier == 'thorough':
         # definedness checker on the unsanitised build
         sub = cases[:400]
